@@ -2,8 +2,10 @@ package main
 
 import (
 	"fmt"
+	"go/constant"
 	"go/token"
 	"go/types"
+	"os"
 	"sort"
 	"strings"
 
@@ -458,6 +460,13 @@ func runC16(c *Ctx) {
 	checkRecoveryStartsAtCurrentBirthdayBlock(c, "C16-R6")
 	checkAddressLookupsNormalisePayToPubKey(c, "C16-R2")
 	checkRecoveryFailureFailsSync(c, "C16-R6")
+	checkFilterFetchFailureIsAnError(c, "C16-R2")
+	checkFilterLengthGuardAdmitsOneElement(c, "C16-R2")
+	// "interrupted-and-resumed recoveries": a batch that fails is rolled back and repeated by the next attempt in the same
+	// process; the repetition re-derives and re-stores what the failed batch found only if the manager's in-memory indices
+	// went back with the database. The extension used by the recovery advances them eagerly (finding F5, here as it
+	// shows in a recovery: C08-R1's rule, for the extension path only)
+	checkIndexMirrorsOnlyAtCommit(c, "C16-R3", func(top string) bool { return top != "extendAddresses" })
 	checkWatchListCoversEveryRequestComponent(c, "C16-R1")
 	checkNeutrinoRecoveryWaitsForBackend(c, "C16-R6")
 	checkBirthdayMargin(c, "C16-R6")
@@ -953,4 +962,123 @@ func checkRecoveryFailureFailsSync(c *Ctx, rule string) {
 		}
 	}
 	c.Floor(rule, "recovery calls on the startup path", n, 1)
+}
+
+// checkFilterFetchFailureIsAnError: a compact filter that could not be fetched must fail the filter request (the batch is
+// rolled back and repeated) — answered as "no filter", the block is skipped as if nothing in it concerned the wallet and
+// the recovery moves its sync point past it. The function that polls the chain service for a filter never returns
+// (nil, nil): where its filter result is nil, its error result is not the nil constant.
+func checkFilterFetchFailureIsAnError(c *Ctx, rule string) {
+	p := c.P
+	n := 0
+	for _, fn := range p.FuncsIn("chain") {
+		if fn.Signature.Results().Len() != 2 || !isErrorType(fn.Signature.Results().At(1).Type()) {
+			continue
+		}
+		if len(callsNamed(fn, "GetCFilter")) == 0 {
+			continue
+		}
+		if !strings.HasSuffix(fn.Signature.Results().At(0).Type().String(), "gcs.Filter") {
+			continue
+		}
+		n++
+		var bad ssa.Instruction
+		for _, b := range fn.Blocks {
+			r, ok := b.Instrs[len(b.Instrs)-1].(*ssa.Return)
+			if !ok || len(r.Results) != 2 {
+				continue
+			}
+			if len(b.Preds) == 0 && b != fn.Blocks[0] {
+				continue // the recover block of a function with defers
+			}
+			if isNilConst(stripConv(effectiveResult(r, 0))) && isNilConst(stripConv(effectiveResult(r, 1))) {
+				bad = r
+			}
+		}
+		pos := fn.Pos()
+		if bad != nil {
+			pos = bad.Pos()
+		}
+		c.Check(rule, "filter-fetch-failure-is-an-error:"+fn.Name(), pos, bad == nil,
+			fnName(fn)+" can answer (nil, nil) when the filter could not be fetched: FilterBlocks takes a nil filter for an empty one, skips the block, and the recovery marks it scanned — what it pays is never found")
+	}
+	c.Floor(rule, "functions fetching a compact filter for a block", n, 1)
+}
+
+// checkFilterLengthGuardAdmitsOneElement: before a raw filter is decoded, a length guard skips blocks whose filter is too
+// short to hold anything. The shortest filter that holds ONE element is 1 byte of count plus the Golomb-Rice code of one
+// value: a terminating quotient bit and P remainder bits — 1 + ceil((P+1)/8) bytes with the builder's DefaultP. The guard's
+// skip edge must not admit that length, or a block whose only script is the payment to the wallet is never looked at.
+func checkFilterLengthGuardAdmitsOneElement(c *Ctx, rule string) {
+	p := c.P
+	var defaultP int64 = -1
+	for _, pk := range p.SSA.AllPackages() {
+		if pk.Pkg != nil && strings.HasSuffix(pk.Pkg.Path(), "btcutil/gcs/builder") {
+			if cst, ok := pk.Pkg.Scope().Lookup("DefaultP").(*types.Const); ok {
+				defaultP, _ = constant.Int64Val(cst.Val())
+			}
+		}
+	}
+	if defaultP < 0 {
+		c.Unresolved(rule, "gcs/builder.DefaultP")
+		return
+	}
+	minOne := 1 + (defaultP+1+7)/8
+	n := 0
+	for _, fn := range p.FuncsIn("chain") {
+		for _, dec := range callsNamed(fn, "FromNBytes") {
+			if len(dec.Call.Args) < 3 {
+				continue
+			}
+			data := p.linearize(dec.Call.Args[2], 0) // only to name the operand; compared through len() below
+			_ = data
+			for _, b := range fn.Blocks {
+				if len(b.Instrs) == 0 || !b.Dominates(dec.Block()) {
+					continue
+				}
+				iff, ok := b.Instrs[len(b.Instrs)-1].(*ssa.If)
+				if !ok {
+					continue
+				}
+				// the edge that does NOT lead to the decoding is the skip edge
+				for si := range b.Succs {
+					if s := b.Succs[si]; s == dec.Block() || (b.Dominates(s) && s.Dominates(dec.Block())) {
+						continue
+					}
+					f, ok := p.cmpForm(iff.Cond, si == 0)
+					if os.Getenv("VERIF_DEBUG") != "" {
+						fmt.Println("DEBUG guard", fn.Name(), ok, f.L.String(), f.Rel)
+					}
+					if !ok || len(f.L.Coef) != 1 {
+						continue
+					}
+					var coef int64
+					isLen := false
+					for k, v := range f.L.Coef {
+						coef = v
+						isLen = strings.HasPrefix(k, "call:len(") && strings.Contains(k, "Data")
+					}
+					if !isLen || (coef != 1 && coef != -1) {
+						continue
+					}
+					// a*len + k REL 0  ->  the largest length the skip edge admits
+					maxSkipped := int64(-1)
+					switch {
+					case coef == 1 && f.Rel == "<":
+						maxSkipped = -f.L.Konst - 1
+					case coef == 1 && f.Rel == "<=":
+						maxSkipped = -f.L.Konst
+					case coef == 1 && f.Rel == "==":
+						maxSkipped = -f.L.Konst
+					default:
+						continue
+					}
+					n++
+					c.Check(rule, "filter-length-guard-admits-one-element:"+fn.Name(), iff.Pos(), maxSkipped < minOne,
+						fmt.Sprintf("%s skips a block without decoding its filter when the filter is up to %d bytes long; a filter holding one element is %d bytes (count byte + Golomb-Rice code with P=%d): a block whose only script pays the wallet is never fetched", fnName(fn), maxSkipped, minOne, defaultP))
+				}
+			}
+		}
+	}
+	c.Floor(rule, "length guards in front of a raw filter's decoding", n, 1)
 }
